@@ -53,6 +53,35 @@ pub fn seq_ord<A: Codec + Ord>(n: usize) {
     core::mem::forget(sy);
 }
 
+/// equal-length owned sequences longer than one storage word: numeric order of the packed integer
+/// (high word first), which for symbol-aligned content is the colexicographic order.  The two sequences
+/// share a concrete low part; the 8 bits below the word boundary and the bits above it are symbolic in both
+/// (a fully symbolic 66-bit pair does not finish: 8 GB after 13 min), so every way of differing on either or
+/// both sides of the boundary is covered, differences further down are not.
+#[inline(always)]
+pub fn seq_ord_2w<A: Codec, const N: usize>(n: usize) {
+    let b = A::BITS as usize;
+    const LOW: usize = 0x0036_c9e2_4b1d_a057;
+    let hb = n * b - 64;
+    let (tx, ty) = (any_u8(), any_u8());
+    let (ux, uy) = (any_u8(), any_u8());
+    assume((ux as usize) < (1 << hb) && (uy as usize) < (1 << hb));
+    let wx = [LOW | ((tx as usize) << 56), ux as usize];
+    let wy = [LOW | ((ty as usize) << 56), uy as usize];
+    let (ax, ay) = (arr::<A, N, 2>(wx), arr::<A, N, 2>(wy));
+    let sx: Seq<A> = owned_cap(&ax, 0, n, n);
+    let sy: Seq<A> = owned_cap(&ay, 0, n, n);
+    let want = if ux != uy { ux.cmp(&uy) } else { tx.cmp(&ty) };
+    let got = sx.cmp(&sy);
+    assert!(got == want, "C10.seq.cmp_is_colexicographic_two_words");
+    assert!(sy.cmp(&sx) == want.reverse(), "C10.seq.antisymmetric_two_words");
+    reach!(want == Ordering::Less && ux == uy, "decided in the low word");
+    reach!(want == Ordering::Greater && ux != uy, "decided in the high word");
+    reach!(ux > uy && tx < ty, "words disagree");
+    core::mem::forget(sx);
+    core::mem::forget(sy);
+}
+
 harnesses! {
     fn c10_q_kmer_dna_k1 [34] { kmer_ord::<Dna, 1>(); }
     fn c10_q_kmer_dna_k2 [34] { kmer_ord::<Dna, 2>(); }
@@ -163,6 +192,8 @@ harnesses! {
     fn c10_q_seq_dna_n2 [10] { seq_ord::<Dna>(2); }
     fn c10_q_seq_dna_n4 [10] { seq_ord::<Dna>(4); }
     fn c10_q_seq_mdna_n2 [10] { seq_ord::<masked::Dna>(2); }
+    fn c10_p_seq_dna_n33 [70] { seq_ord_2w::<Dna, 64>(33); }
+    fn c10_p_seq_amino_n11 [70] { seq_ord_2w::<Amino, 21>(11); }
     fn c10_t_seq_dna_n3 [10] { seq_ord::<Dna>(3); }
     fn c10_t_seq_dna_n16 [34] { seq_ord::<Dna>(16); }
     fn c10_t_seq_miupac_n3 [18] { seq_ord::<masked::Iupac>(3); }
